@@ -103,6 +103,25 @@ extern "C" int remove(const char* path) {
   if (g_win) logop('X', 0, 0, nullptr);
   return real(path);
 }
+// file-name operations issued by the writer itself (not from inside a cfitsio call): each is a step of the trace — the
+// writer as modelled issues none besides remove() on its failure path, so any that appears breaks the control-flow tie —
+// and each can be made to fail (nothing done, EACCES), like every other step
+static bool is_name_op(const std::string& n) { return n == "rename" || n == "link" || n == "symlink" || n == "unlink" || n == "renameat" || n == "renameat2" || n == "linkat"; }
+#define NAME_OP(NAME, PARAMS, ARGS)                                                                            \
+  extern "C" int NAME PARAMS {                                                                                 \
+    static auto real = (int(*) PARAMS)dlsym(RTLD_NEXT, #NAME);                                                 \
+    if (!TOP) { if (g_win) logop('X', 0, 0, nullptr); return real ARGS; }                                      \
+    Depth d(#NAME);                                                                                            \
+    if (inject_here()) { g_step_fired++; g_trace.push_back({#NAME, -1}); errno = EACCES; return -1; }          \
+    int r = real ARGS; g_trace.push_back({#NAME, r}); return r;                                                \
+  }
+NAME_OP(rename, (const char* a, const char* b), (a, b))
+NAME_OP(link, (const char* a, const char* b), (a, b))
+NAME_OP(symlink, (const char* a, const char* b), (a, b))
+NAME_OP(unlink, (const char* a), (a))
+NAME_OP(renameat, (int fa, const char* a, int fb, const char* b), (fa, a, fb, b))
+NAME_OP(renameat2, (int fa, const char* a, int fb, const char* b, unsigned int fl), (fa, a, fb, b, fl))
+NAME_OP(linkat, (int fa, const char* a, int fb, const char* b, int fl), (fa, a, fb, b, fl))
 extern "C" int ffinit(fitsfile** fptr, const char* name, int* status) {
   static auto real = (int (*)(fitsfile**, const char*, int*))dlsym(RTLD_NEXT, "ffinit");
   if (!TOP) return real(fptr, name, status);
@@ -352,6 +371,8 @@ int main(int argc, char** argv) {
     for (int i = 0; i < na; i++) { std::string k = "AUXK" + std::to_string(i); std::string v = i == 0 ? "some value" : std::to_string(r.below(100000)); t.write_key(k.c_str(), v); }
     stats["naux_" + std::to_string(na)]++;
     const bool sweep_all = thorough || cls == 5;   // every op index gets its faults
+    // a different table of the same shape (first coefficient changed), for the runs which need a previous file under the name
+    Table other; { std::vector<float> c2 = g.coef; uint32_t w = bits(c2[0]) ^ 0x00400000u; memcpy(&c2[0], &w, 4); build_table(other, g.ord, g.kn, c2); }
 
     // ---- healthy write with the op log recorded
     g_fail_at = -1; g_step_fail = -1; g_fail_realloc = -1; g_keep = true;
@@ -556,6 +577,8 @@ int main(int argc, char** argv) {
           continue;
         }
         unlink(path.c_str());
+        // a failing file-name operation: an older, different table is at the requested name (what must not be passed off as success)
+        if (is_name_op(H2.trace[j].name) && variant < V_MEM) { other.write_fits(path); stats["stepfault_name_op_with_previous_table"]++; }
         g_step_fail = (int)j;
         Run R = do_write(t, variant, path);
         g_step_fail = -1;
